@@ -188,7 +188,7 @@ func errTextOf(backend string) string {
 	case "ASA":
 		return "ERROR: % Invalid input detected at '^' marker."
 	case "IOS":
-		return "% Invalid input detected at '^' marker."
+		return "% Invalid next hop address (it's this router)"
 	}
 	return "-bash: line 1: command failed"
 }
